@@ -412,8 +412,12 @@ def is_cocircular(
     if a.dim == 1:
         return np.isreal(crossratio(a, b, c, d))
 
-    elif a.dim > 2:
+    coplanar = True
+
+    if a.dim > 2:
         e = join(a, b, c)
+        # four points of a circle lie in one plane
+        coplanar = e.contains(d)
         basis = e.basis_matrix
         a = a._matrix_transform(basis)
         b = b._matrix_transform(basis)
@@ -422,7 +426,7 @@ def is_cocircular(
 
     i = crossratio(a, b, c, d, I)
     j = crossratio(a, b, c, d, J)
-    return np.isclose(i, j, rtol, atol)
+    return coplanar & np.isclose(i, j, rtol, atol)
 
 
 def is_perpendicular(
